@@ -1025,16 +1025,66 @@ package bkl
 //@              (ite (= (findFileF (parentLayerPath (file.path f))) "")
 //@                   (= err ErrMissingFile)
 //@                   (and (not (isErr err)) (= res (Slice (SCons (findFileF (parentLayerPath (file.path f))) SNil))))))
+//@   ensures (and (= (isErr err) (fnE (file.path f))) (=> (not (isErr err)) (= res (fnS (file.path f)))))                                   [C03] [follows]
 //
 //@ func globFiles(path) (res, err)
 //@   property C03
 //@   uses allDotsApp, sappNil, ssnocApp
 //@   ensures (=> (not (isErr err)) (allDots (sitems res) (strCount (str.++ path ".*") ".")))                                                        [C03]
+//@   ensures (= (isErr err) (globE path))                                                                                                   [C03]
+//@   ensures (=> (not (isErr err)) (= res (Slice (globF path))))                                                                            [C03]
 //@   loop 1
 //@     invariant (allDots (sitems ret) patDots)
+//@     invariant ((_ is Slice) ret)
+//@     invariant (= (sapp (sitems ret) (globSel rest patDots)) (globSel (sitems matches) patDots))
 //
 //@ func file.toAbsolutePaths(f, paths) (res, err)
 //@   property C03
+//@   uses sappNil, sappAssoc
+//@   ensures (= (isErr err) (absBad (pathDir (file.path f)) (sitems paths)))                                                                [C03]
+//@   ensures (=> (not (isErr err)) (= res (Slice (absList (pathDir (file.path f)) (sitems paths)))))                                        [C03]
+//@   loop 1
+//@     invariant ((_ is Slice) ret)
+//@     invariant (= (absBad (pathDir (file.path f)) rest) (absBad (pathDir (file.path f)) (sitems paths)))
+//@     invariant (= (sapp (sitems ret) (absList (pathDir (file.path f)) rest)) (absList (pathDir (file.path f)) (sitems paths)))
+//
+//@ func file.parentsFromSymlink(f) (res, err)
+//@   property C03
+//@   modifies file.path[f]
+//@   ensures (=> (isStdinF (old (file.path f))) (and (not (isErr err)) (= res SliceNil) (= (file.path f) (old (file.path f)))))             [C03]
+//@   ensures (=> (and (not (isStdinF (old (file.path f)))) (isErr (evalSymlinksE (old (file.path f))))) (isErr err))                        [C03]
+//@   ensures (=> (and (not (isStdinF (old (file.path f)))) (not (isErr (evalSymlinksE (old (file.path f)))))                                [C03]
+//@                    (= (evalSymlinksF (old (file.path f))) (old (file.path f))))
+//@              (and (not (isErr err)) (= res SliceNil) (= (file.path f) (old (file.path f)))))
+//@   ensures (=> (and (not (isStdinF (old (file.path f)))) (not (isErr (evalSymlinksE (old (file.path f)))))                                [C03]
+//@                    (not (= (evalSymlinksF (old (file.path f))) (old (file.path f)))))
+//@              (and (= (isErr err) (fnE (evalSymlinksF (old (file.path f)))))
+//@                   (=> (not (isErr err)) (= res (fnS (evalSymlinksF (old (file.path f))))))))
+//@   ensures (and (= (isErr err) (symE (old (file.path f)))) (=> (not (isErr err)) (= res (symS (old (file.path f))))))                    [C03]
+//@   ensures (=> (and (not (isErr err)) (= res SliceNil)) (= (file.path f) (old (file.path f))))                                           [C03]
+//
+
+//@ func file.parentsFromDirective(f) (res, err)
+//@   property C03
+//@   uses sappNil, sappAssoc, ssnocApp, rdistinctApp, rmemApp
+//@   requires (rdistinct (file.docs f))
+//@   requires (forall ((r Int)) (=> (rmem r (file.docs f)) (not (= r 0))))
+//@   ensures (= (isErr err) (dirE (old (heap Document.Data)) (file.docs f) (pathDir (file.path f))))                                       [C03]
+//@   ensures (=> (not (isErr err)) (= res (dirS (old (heap Document.Data)) (file.docs f) (pathDir (file.path f)))))                        [C03]
+//@   loop 1
+//@     invariant ((_ is Slice) parents)
+//@     invariant (forall ((r Int)) (=> (not (rmem r done)) (= (Document.Data r) (old (Document.Data r)))))
+//@     invariant (= (dirBad (old (heap Document.Data)) rest) (dirBad (old (heap Document.Data)) (file.docs f)))
+//@     invariant (= (or noParent (dirNo (old (heap Document.Data)) rest)) (dirNo (old (heap Document.Data)) (file.docs f)))
+//@     invariant (= (sapp (sitems parents) (dirStrs (old (heap Document.Data)) rest)) (dirStrs (old (heap Document.Data)) (file.docs f)))
+//
+//@ func file.parents(f) (res, err)
+//@   property C03
+//@   requires (rdistinct (file.docs f))
+//@   requires (forall ((r Int)) (=> (rmem r (file.docs f)) (not (= r 0))))
+//@   ensures (= (isErr err) (parentsE (old (heap Document.Data)) (file.docs f) (old (file.path f))))                                       [C03]
+//@   ensures (=> (not (isErr err)) (= res (parentsS (old (heap Document.Data)) (file.docs f) (old (file.path f)))))                        [C03]
+//@   ensures (= (file.docs f) (old (file.docs f)))
 
 //@ func NewEvalContext() (res)
 //@   property C09
